@@ -123,6 +123,30 @@ class Env1Status(Env1[http.HTTPStatus]):
 class Env1Path(Env1[PurePosixPath]):
     extra: int = 0
 
+def _parse_days(v):
+    if type(v) is not list:
+        raise ValueError(v)
+    return [datetime.date.fromisoformat(x) for x in v]
+
+def _parse_when(v):
+    return tuple(_parse_days(v))
+
+def _parse_ip(v):
+    if type(v) is not str:
+        raise ValueError(v)
+    return _ipa.IPv4Address(v)
+
+@dataclass
+class Ovr(DataClassDictMixin):
+    # PEP 585 generics whose conversion is overridden: the type is only NAMED, on the error-reporting paths
+    days: list[datetime.date] = field(metadata={"deserialize": _parse_days})
+    n: int = 0
+
+@dataclass
+class Ovr2(DataClassDictMixin):
+    when: tuple[datetime.date, ...] = field(metadata={"deserialize": _parse_when})
+    addr: Optional[_ipa.IPv4Address] = field(default=None, metadata={"deserialize": _parse_ip})
+
 @dataclass
 class TwoEnums(DataClassDictMixin):
     x: E1
@@ -162,6 +186,7 @@ TYPES = [
     # names that exist only in the annotation (NewType, Annotated, PEP 695 alias) as scalar members of a union
     ("u_newtype", "Union[NTI, str]"), ("u_annot", "Union[Annotated[int, 'm'], str]"), ("u_alias", "Union[TAI, str]"),
     ("alias_dc", "AliasDC"), ("alias_list", "List[TAL]"), ("alias_local", "Tuple[LAI, TAI]"),
+    ("ovr", "Ovr"), ("ovr2", "Ovr2"),
     ("u_newtype_list", "List[Union[NTI, datetime.date]]"),
 ]
 
